@@ -218,6 +218,40 @@ def run(ctx):
                           "act on a detached tag", desc="%s validates against a copy of the tag" % f.short)
     ctx.floor("R9.6", "get_definition calls in validators", n_gd, 1)
 
+    # ---------------- R9.7: one case-folding for the definition table
+    ctx.rule("R9.7", "every access to a definition table `.defs` case-folds its key the same way (casefold)")
+    from sa.norm import check_uniform, mapping_accesses
+    RAW_OK = {"DefinitionDict._add_definition": "receives keys taken from another definition table (already case-folded)"}
+    acc = []
+    for f in prog.functions.values():
+        if f.short in RAW_OK:
+            continue
+        acc += mapping_accesses(f, lambda e: isinstance(e, ast.Attribute) and e.attr == "defs")
+    n_acc = check_uniform(ctx, "R9.7", acc, {"casefold"}, "the definition table `.defs`",
+                          "a name that casefold() and this spelling fold differently (e.g. `Straße`, `ǅ`) is stored under one key "
+                          "and looked up under another, so a declared definition is reported as unmatched or is not expanded")
+    ctx.floor("R9.7", "accesses of .defs", n_acc, 8)
+
+    # ---------------- R9.8: nested Def tags are searched for at every depth
+    ctx.rule("R9.8", "the search for Def/Def-expand/Definition tags inside a definition's contents is recursive")
+    n_rec = 0
+    for f in prog.find_class("DefinitionDict").all_methods:
+        if "DEF_TAG_IN_DEFINITION" not in norm(f.node):
+            continue
+        ctx.saw(f)
+        for lp in walk_no_nested(f.node):
+            if isinstance(lp, ast.For) and isinstance(lp.iter, ast.Call) and call_name(lp.iter) in ("find_tags", "find_def_tags") \
+                    and "DEF_TAG_IN_DEFINITION" in norm(lp):
+                n_rec += 1
+                kw = {k.arg: k.value for k in lp.iter.keywords if k.arg}
+                pos = {"find_tags": 1, "find_def_tags": 0}[call_name(lp.iter)]
+                flag = kw.get("recursive", lp.iter.args[pos] if len(lp.iter.args) > pos else None)
+                ctx.check(isinstance(flag, ast.Constant) and flag.value is True, "R9.8", f.qualname, lp.iter, loc(f, lp.iter),
+                          "the contents of a definition are searched for Def/Def-expand/Definition tags only at the top level of "
+                          "the content group (recursive is not True): a Def nested one group deeper is accepted into the "
+                          "dictionary", desc="nested-Def search is recursive")
+    ctx.floor("R9.8", "nested-Def searches", n_rec, 1)
+
     # ---------------- R9.5: a copy of a tag does not share its cached expansion / flag with the original
     ctx.rule("R9.5", "HedTag.__deepcopy__ deep-copies the cached expansion, its flag and the parent link")
     dc = tag.methods.get("__deepcopy__")
